@@ -578,8 +578,41 @@ func (w *World) closureCases(lit *ssa.Function, errIdx int, nr *noReturnInfo) []
 			continue
 		}
 		ev := ret.Results[errIdx]
-		if isNilConst(ev) || definitelyNonNilError(ev) {
-			continue // nil, or a verdict constructed here (not a propagated failure)
+		if isNilConst(ev) {
+			continue
+		}
+		if definitelyNonNilError(ev) {
+			// a verdict constructed here - unless a source error of the literal may still be
+			// non-nil at this return (it was defined on the way here and no branch on the
+			// way established that it is nil or exempt): then the verdict masks a failure,
+			// and what the caller does with this return site decides whether it is swallowed
+			masked := ""
+			for _, s := range srcs {
+				if s.Err == nil || s.Call == nil || !instrDominates(s.Call, ret) {
+					continue
+				}
+				settled := false
+				for _, f := range domFacts(b) {
+					st, sf, et, ef := w.classifyCond(f.Cond, map[ssa.Value]bool{s.Err: true}, s)
+					if (f.Truth && (st || et)) || (!f.Truth && (sf || ef)) {
+						settled = true
+					}
+				}
+				if !settled {
+					masked = s.Callee
+				}
+			}
+			if masked == "" {
+				continue
+			}
+			cc := closureCase{ret: ret, consts: map[int]bool{}, errDesc: masked + ", masked by an error constructed at this return"}
+			for i, res := range ret.Results {
+				if bv, ok := constBool(res); ok {
+					cc.consts[i] = bv
+				}
+			}
+			out = append(out, cc)
+			continue
 		}
 		obligated := false
 		desc := ""
